@@ -15,8 +15,8 @@ import (
 	"github.com/cockroachdb/pebble"
 	"github.com/cockroachdb/pebble/vfs"
 	"github.com/ethereum/go-ethereum/p2p/enode"
-	"github.com/zen-eth/shisui/storage"
 	"github.com/zen-eth/shisui/history"
+	"github.com/zen-eth/shisui/storage"
 	spebble "github.com/zen-eth/shisui/storage/pebble"
 )
 
